@@ -130,9 +130,14 @@ def structure_and_roundtrip(case, ctx):
     vj = jax.jit(lambda k, xx: mod.init(k, xx))(key, x)
   require(shapes(vj) == exp, 'jit(init) tree differs')
   fj, fv = L.flat(vj), L.flat(v)
+  # (values are not part of the statement for shape-only initialisation;
+  # eager and compiled float32 arithmetic round differently, and deep
+  # programs amplify that, so this is a loose sanity check only)
   for p in fv:
-    require(np.allclose(np.asarray(fj[p]), np.asarray(fv[p]), rtol=1e-6,
-                        atol=1e-6), f'jit(init) value differs at {p}')
+    a_, b_ = np.asarray(fj[p], np.float64), np.asarray(fv[p], np.float64)
+    scale = max(1.0, float(np.max(np.abs(b_))) if b_.size else 1.0)
+    require(np.allclose(a_, b_, rtol=1e-2, atol=1e-2 * scale),
+            f'jit(init) value differs at {p}')
   recalled = any(o.get('calls', 1) > 1 for o in L.collect(case['prog'], 'sub',
                                                           case)) \
       or L.uses(case['prog'], ('reuse',), case) or bool(case.get('shared'))
